@@ -155,7 +155,7 @@ def gen_raw(rng, nprng, count, maxn):
                 k2 = rng.randint(1, 6)
                 toks += ["E", str(k2)]
                 if rng.random() < 0.6:
-                    n2 = cap + rng.randint(1, 5)
+                    n2 = max(cap + rng.randint(1, 5), k2)
                     o2 = dict(opts)
                     o2["precond"] = None
                     t2, cap = emit_problem(rng, nprng, ty, k2, n2, cap, o2)
@@ -357,9 +357,16 @@ def oracle(case, out):
         zn = math.sqrt(float(sum(a * a for a in z)))
         yn = math.sqrt(float(sum(a * a for a in Y)))
         scale = smax * smax * zn + smax * yn
-        worst = max(abs(float(r)) for r in res)
         zstar = solve_exact(M, v)
         small_sv = site == "svd" and svd_below_abs_eps(M, rec["ty"])
+        # x itself is rounded to the scalar type: z = A^-1 (x - b) inherits |A^-1| (|x|+|b|) eps (cancellation when b dominates)
+        try:
+            Ainv = np.abs(np.linalg.inv(np.array(rec["A"], dtype=float)))
+            dz = 8 * EPS[rec["ty"]] * (Ainv @ (np.abs(np.array(x)) + np.abs(np.array(rec["b"], dtype=float))))
+            extra = np.abs(np.array([[float(a) for a in r] for r in M])) @ dz
+        except Exception:
+            extra = np.zeros(k)
+        worst = max(abs(float(r)) - float(extra[i]) for i, r in enumerate(res))
         if scale > 0 and worst > rtol * scale:
             key = "c07-svd-singular-values-below-absolute-epsilon" if small_sv else "c07-normal-equations-%s" % site
             fails.append((key, "|J^T(Jz-Y)|_max = %.3g > %.3g * (|J|^2|z|+|J||Y| = %.3g); z = A^-1(x-b) = %s, exact minimiser %s; "
